@@ -141,8 +141,12 @@ class BodyMacroGen:
             private = []
             alt = [self.clause(force=force, private=private)]
             if rng.random() < 0.5:
+                # an alternative must not END with an expression (`if c | next` would parse `|` as an operator):
+                # a condition goes between two clauses
                 avail = self.bound + private
-                alt.append(["cond", self.cond_if(avail)] if rng.random() < 0.5 or not self.bound else self.clause(private=private, force=()))
+                if avail and rng.random() < 0.5:
+                    alt.append(["cond", self.cond_if(avail)])
+                alt.append(self.clause(private=private, force=()))
             alts.append(alt)
         for v in force:
             if v in self.unbound_io:
